@@ -395,6 +395,7 @@ def r_generated(ctx, res):
     rid8 = res.rule("C13-R8", "generated regex recognisers are anchored as a whole at the current position", floor=20)
     str_static = 0
     unanchored = []
+    noanchor = []
     nrec = 0
     for g in gen.load_set(ctx.dir("gen-functions")):
         if g.settings["lexer_type"] != "Default" or g.parse_error:
@@ -421,12 +422,19 @@ def r_generated(ctx, res):
                 prefix = gen.rust_str(lits[0][1]) if lits else ""
                 text = gen.rust_str(lits[1][1]) if len(lits) > 1 else ""
                 whole = prefix.startswith("^(") or prefix.startswith("^(?:")
-                if top_level_alternation(text) and not whole:
+                if not prefix.startswith("^"):
+                    # no anchor at all (not the documented limitation of D11): the recogniser `find`s anywhere in the rest
+                    noanchor.append("%s %s: /%s/" % (name, term["name"], (text or prefix)[:40]))
+                elif top_level_alternation(text) and not whole:
                     unanchored.append("%s %s: /%s/" % (name, term["name"], text))
         res.ok(rid8, name, g.entry.get("parser_file_rel"))
     if str_static:
         res.violation(rid7, "str-match-static", "string recognisers return the recogniser's own &'static str (`Some(s)`), not the "
                       "slice of the input buffer at the token's span (%d generated parsers)" % str_static,
+                      "rustemo-compiler/src/generator/base.rs")
+    if noanchor:
+        res.violation(rid8, "no-anchor", "%d generated regex recogniser(s) are not anchored at the current position at all (e.g. %s): "
+                      "a token may be recognised from text further on in the input" % (len(noanchor), "; ".join(noanchor[:3])),
                       "rustemo-compiler/src/generator/base.rs")
     # the template itself: `concat!("^", r)` anchors only the first top-level alternative
     res.violation(rid8, "template-anchor", "regex recognisers are emitted as concat!(\"^\", r): for a pattern with a top-level `|` only "
